@@ -166,7 +166,6 @@ func bufrMaxSeek(dir string) (uint64, error) {
 
 var bufrMaxOff uint64
 
-const bufrCap0IsViolation = false
 
 func bufrCapClass(c int) string {
 	switch {
@@ -303,6 +302,10 @@ func bufrCallsOne(res *Result, drv *Driver, r *Rng, idx int, tier string, grow s
 	if r.Chance(2) {
 		capv = 0
 	}
+	ecap := capv // the capacity the reader really has
+	if ecap == 0 {
+		ecap = 16
+	}
 	var dl int
 	switch {
 	case r.Chance(8):
@@ -320,7 +323,7 @@ func bufrCallsOne(res *Result, drv *Driver, r *Rng, idx int, tier string, grow s
 			dl = r.Intn(300)
 		}
 	default:
-		dl = r.Intn(3*capv + 6)
+		dl = r.Intn(3*ecap + 6)
 	}
 	data := r.Bytes(dl)
 	sched, _ := bufrGenSched(r, capv)
@@ -338,7 +341,7 @@ func bufrCallsOne(res *Result, drv *Driver, r *Rng, idx int, tier string, grow s
 	rem := dl
 	bigCalls := 0
 	pickN := func() int {
-		c := []int{0, 1, 2, 3, capv - 1, capv, capv + 1, 2*capv + 1, r.Intn(20), r.Intn(20), rem - 1, rem, rem + 1}
+		c := []int{0, 1, 2, 3, ecap - 1, ecap, ecap + 1, 2*ecap + 1, r.Intn(20), r.Intn(20), rem - 1, rem, rem + 1}
 		v := c[r.Intn(len(c))]
 		if v < 0 {
 			v = 0
@@ -396,7 +399,7 @@ func bufrCallsOne(res *Result, drv *Driver, r *Rng, idx int, tier string, grow s
 	sr := &schedReader{data: data, sched: sched, eofData: eofData}
 	rd := recordio.NewReaderBuf(sr, make([]byte, capv))
 	cr := recordio.NewCountingByteReader(rd)
-	check := capv >= 1
+	check := true // capacity 0 is an ordinary case: NewReaderBuf substitutes a 16-byte buffer
 	pos := 0
 	gotData := false
 	viol := func(kind, detail string) {
@@ -924,9 +927,8 @@ func bufrFileOne(res *Result, drv *Driver, r *Rng, idx int, tier string, grow st
 			capv = 1
 		}
 	}
-	if r.Chance(2) {
-		capv = 0
-		mode = "osfile"
+	if r.Chance(3) {
+		capv = 0 // NewReaderBuf / BufferedIOFactory.CreateNewReader(p, 0) / ReaderBufferSizeBytes(0): 16 bytes are used
 	}
 	var sched []int
 	eofData := false
@@ -969,7 +971,12 @@ func bufrFileOne(res *Result, drv *Driver, r *Rng, idx int, tier string, grow st
 	var fac *bufrFactory
 	var err error
 	if mode == "osfile" {
-		rd, err = recordio.NewFileReader(recordio.ReaderPath(path), recordio.ReaderBufferSizeBytes(capv))
+		if r.Chance(30) {
+			res.Stat("B:mode:osfile:explicit-BufferedIOFactory")
+			rd, err = recordio.NewFileReader(recordio.ReaderPath(path), recordio.ReaderBufferSizeBytes(capv), recordio.ReaderIoFactory(recordio.BufferedIOFactory{}))
+		} else {
+			rd, err = recordio.NewFileReader(recordio.ReaderPath(path), recordio.ReaderBufferSizeBytes(capv))
+		}
 	} else {
 		fac = &bufrFactory{data: file, sched: sched, eofData: eofData}
 		rd, err = recordio.NewFileReader(recordio.ReaderPath(path), recordio.ReaderBufferSizeBytes(capv), recordio.ReaderIoFactory(fac))
@@ -1051,7 +1058,7 @@ func bufrFileOne(res *Result, drv *Driver, r *Rng, idx int, tier string, grow st
 	res.Cmp(idx, "bufr.file", mCmp, impl, line)
 
 	// ---- buffered model vs pure-stream model
-	if capv >= 1 && ns && damage != "hugeskip" { // the pure-stream model has no int64 conversion of seek targets
+	if ns && damage != "hugeskip" { // the pure-stream model has no int64 conversion of seek targets
 		sLine := fmt.Sprintf("bufr.stream file=%s oracle=%s prog=%s", fileArg, oracle, progArg)
 		sm, err := drv.Ask(sLine)
 		if err != nil {
@@ -1060,21 +1067,17 @@ func bufrFileOne(res *Result, drv *Driver, r *Rng, idx int, tier string, grow st
 		res.Cmp(idx, "bufr.file-vs-stream", sm, bufrStripCounts(m, true), line)
 	}
 
-	// ---- cap=0: reachable through the public option ReaderBufferSizeBytes(0): Open succeeds, the first
-	// ReadNext/SkipNext panics in fill. C04 quantifies over buffer sizes "from a few bytes to megabytes", so this is
-	// outside the property: recorded in the statistics (and predicted by the model, theorem cap0_readByte_panics),
-	// reported as a violation only when bufrCap0IsViolation is set.
-	if capv == 0 && sawPanic != "" {
-		res.Stat("cap0:public-reader-panics")
-		if bufrCap0IsViolation {
-			res.Evaluations++
-			res.Violate(idx, "C04", "reader-buffer-size-0-panics",
-				"NewFileReader(ReaderBufferSizeBytes(0)): Open succeeds, the first ReadNext/SkipNext panics: "+sawPanic, line)
-		}
+	// ---- a panic of the reader is a violation whatever the input (capacity 0 included: /repo commit 964130e)
+	if openErr != nil && bufrErrKind(openErr) == "panic" && sawPanic == "" {
+		sawPanic = openErr.Error()
+	}
+	if sawPanic != "" {
+		res.Evaluations++
+		res.Violate(idx, "C04", fmt.Sprintf("bufr-file-panic-cap%s", bufrCapClass(capv)), "the file reader panicked: "+sawPanic, line)
 	}
 
 	// ---- property oracle: an undamaged file gives back exactly the records written
-	if damage == "none" && capv >= 1 && ns && openErr == nil {
+	if damage == "none" && ns && openErr == nil {
 		sig := fmt.Sprintf("bufr-file-v%d-%s", version, mode)
 		ri := 0
 		for oi, op := range prog {
@@ -1109,7 +1112,7 @@ func bufrFileOne(res *Result, drv *Driver, r *Rng, idx int, tier string, grow st
 			}
 			break
 		}
-	} else if damage == "none" && openErr != nil && capv >= 1 && ns {
+	} else if damage == "none" && openErr != nil && ns {
 		res.Evaluations++
 		res.Violate(idx, "C04", fmt.Sprintf("bufr-file-v%d-%s:open", version, mode), "Open of an undamaged file failed: "+openErr.Error(), line)
 	}
